@@ -245,7 +245,7 @@ def _field(em, fl, path):
         cs = fl.get("constraints") or []
         if cs or (em.st.fancy and em.st.rng.random() < 0.2):
             em.tok("{")
-            _list(em, cs, lambda i, c: _constraint(em, c, path + ("constraint", i)), False)
+            _list(em, cs, lambda i, c: _constraint(em, c, path + ("constraint", i)), True)
             em.tok("}")
     else:
         raise ValueError("cannot render field kind %r" % k)
@@ -276,7 +276,7 @@ def _decl(em, d, i):
             if d.get("constraints"):
                 em.tok("(")
                 _list(em, d["constraints"],
-                      lambda j, c: _constraint(em, c, path + ("constraint", j)), False)
+                      lambda j, c: _constraint(em, c, path + ("constraint", j)), True)
                 em.tok(")")
         em.tok("{")
         _list(em, d["fields"], lambda j, fl: _field(em, fl, path + ("field", j)), True, newline=True)
